@@ -392,6 +392,11 @@ class ColorVisuals(Visuals):
         Apply a mask to remove or duplicate vertex properties.
         """
         self._update_key(mask, "vertex_colors")
+        if "face_colors" not in self._data:
+            # face colors generated from the vertex colors belong to the
+            # faces as they were indexed before: `update_vertices` re-indexes
+            # the faces too (also when every vertex is kept), so drop them
+            self._cache.delete("face_colors")
 
     def update_faces(self, mask: ArrayLike):
         """
